@@ -90,7 +90,11 @@ impl Prop for AddSub {
         // receivers on the two outermost days at either end (read at offset 0 there)
         if u.coin(1, 10)? {
             a.day = if u.coin(1, 2)? { cal::MIN_DAY + u.below(2)? as i64 } else { cal::MAX_DAY - u.below(2)? as i64 };
-            off = 0;
+            // half of them at offset 0, the others with an offset (built by arithmetic on an
+            // offset-carrying value: obs::mk_dt_off_late; the local reading may be unrepresentable)
+            if u.coin(1, 2)? {
+                off = 0;
+            }
         }
         // amounts chosen so that the target lands exactly on a midnight (+- 1 ns)
         let mut op = op;
@@ -121,8 +125,9 @@ impl Prop for AddSub {
         if !c.a.valid() || c.off.abs() > 86_399 {
             return Verdict::Skip("malformed case");
         }
-        if c.off != 0 && (c.a.day < cal::MIN_DAY + 1 || c.a.day > cal::MAX_DAY - 1) {
-            return Verdict::Skip("offset-carrying receiver on an outermost day of the range");
+        let late = c.off != 0 && (c.a.day < cal::MIN_DAY + 1 || c.a.day > cal::MAX_DAY - 1);
+        if late {
+            cx.nt("offset_receiver_on_an_outermost_day_built_by_arithmetic");
         }
         if c.a.day <= cal::MIN_DAY + 1 || c.a.day >= cal::MAX_DAY - 1 {
             cx.nt("receiver_on_an_outermost_day");
@@ -220,7 +225,7 @@ impl Prop for AddSub {
                 ((r.timestamp() as i128 + tl::EPOCH_1970_S as i128) * tl::NS, None)
             })
         } else {
-            let d0 = match catch(|| mk_dt_off_any(ia, c.off)) {
+            let d0 = match catch(|| if late { mk_dt_off_late(ia, c.off) } else { mk_dt_off_any(ia, c.off) }) {
                 Ok(d) => d,
                 Err(p) => return fail("c04.harness_build", "receiver builds", p.short()),
             };
